@@ -2,6 +2,8 @@
 import WinterProofs.Lemmas.C10Single
 import WinterProofs.Lemmas.C10Bind
 import WinterProofs.Lemmas.C10Asm
+import WinterProofs.Lemmas.C10Unique
+import WinterProofs.Lemmas.C10Spec
 
 namespace WinterProofs.C10
 open Model.Merkle
@@ -125,6 +127,38 @@ theorem batch_no_panic (H : Hasher D) [DecidableEq D] (root : D) (p : BatchProof
     · exact Or.inr ⟨_, rfl⟩
     · exact Or.inl rfl
   · rw [he]; exact Or.inr ⟨e, rfl⟩
+
+/-- Uniqueness ("only for them", nodes and shape included): if `merge` is collision free, an
+    opening of the tree's depth that `verify_batch` accepts against the tree's root is exactly the
+    opening `prove_batch` produces for the position list — same leaves, same node rows, nothing
+    missing and nothing extra.  (False on the pinned tree: unused extra leaves and nodes were
+    accepted; repaired by 5a88c07.) -/
+theorem batch_unique (H : Hasher D) [DecidableEq D] (inj : MergeInj H) (leaves : List D) (d : Nat)
+    (hd1 : 1 ≤ d) (hd2 : d ≤ 63) (hl : leaves.length = 2 ^ d) (root : D)
+    (hroot : (treeOf H leaves).root = .ok root) (p : BatchProof D) (hdp : p.depth = d) (idxs : List Nat)
+    (hv : verifyBatch H root idxs p = .ok ()) : proveBatch H (treeOf H leaves) idxs = .ok p := by
+  have wf : TreeWF H (treeOf H leaves) d := tree_wf H leaves d hd1 hl
+  obtain ⟨root', hr1, hr2⟩ := root_of_wf H _ d wf
+  rw [hr2] at hroot
+  injection hroot with hroot
+  subst hroot
+  exact batch_unique_wf H inj _ d wf hd2 root' hr1 p hdp idxs (verifyBatch_ok H root' idxs p hv)
+
+/-- Every mutation is rejected: if an opening is accepted, any different opening of the same depth
+    for the same position list — a changed leaf, a changed, missing or extra node, row or leaf —
+    is not accepted (by `batch_no_panic` it is an error, not a panic). -/
+theorem batch_mutation_rejected (H : Hasher D) [DecidableEq D] (inj : MergeInj H) (leaves : List D) (d : Nat)
+    (hd1 : 1 ≤ d) (hd2 : d ≤ 63) (hl : leaves.length = 2 ^ d) (root : D)
+    (hroot : (treeOf H leaves).root = .ok root) (p p' : BatchProof D) (hdp : p.depth = d) (hdp' : p'.depth = d)
+    (idxs : List Nat) (hv : verifyBatch H root idxs p = .ok ()) (hne : p' ≠ p) :
+    ∃ e, verifyBatch H root idxs p' = .err e := by
+  rcases (batch_no_panic H root p' idxs).2 with h | h
+  · have h1 := batch_unique H inj leaves d hd1 hd2 hl root hroot p hdp idxs hv
+    have h2 := batch_unique H inj leaves d hd1 hd2 hl root hroot p' hdp' idxs h
+    rw [h1] at h2
+    injection h2 with h2
+    exact absurd h2.symm hne
+  · exact h
 
 /-! ## Concrete instances (every theorem with hypotheses has a non-trivial instance)
 
